@@ -966,6 +966,253 @@ func abs64(x int64) int64 {
 	return x
 }
 
+// ---------------------------------------------------------------- life cycle of ONE container object
+
+func putMirror(v *V, key []byte, n *V) {
+	for i, k := range v.Ks {
+		if string(k) == string(key) {
+			v.L[i] = n
+			return
+		}
+	}
+	v.Ks = append(v.Ks, append([]byte{}, key...))
+	v.L = append(v.L, n)
+}
+
+func putMirrorI(v *V, key int32, n *V) {
+	for i, k := range v.IKs {
+		if k == key {
+			v.L[i] = n
+			return
+		}
+	}
+	v.IKs = append(v.IKs, key)
+	v.L = append(v.L, n)
+}
+
+// MutateRoot applies one step of a life cycle to the container object g ITSELF (whose content is v)
+// through its public methods, and mirrors it on v:
+//
+//	lookups (no change)   Get / GetString / GetBool / GetLong / GetFloat / ContainsKey / Size / IsEmpty / Keys
+//	MapValue              Put new / overwrite, PutString / PutLong on new and on EXISTING keys (whatever type
+//	                      the old value has), NewList, PutAll from another map (new and overlapping keys),
+//	                      Clear, and Clear-then-REFILL with the SAME keys (new values), with a lookup of one
+//	                      of those keys right before the Clear and right after the first Put of the refill
+//	IntMapValue           the same without PutAll / PutLong
+//	ListValue             Add / AddString / AddLong / Set / Clear / Clear-then-refill, Get / GetString / GetBool
+func MutateRoot(r *vh.Rng, g value.Value, v *V, gen *Gen) string {
+	fresh := func() *V { return gen.Flat(FlatKinds[r.Intn(len(FlatKinds))]) }
+	switch x := g.(type) {
+	case *value.MapValue:
+		anyKey := func() string {
+			if len(v.Ks) > 0 && r.Chance(80) {
+				return string(v.Ks[r.Intn(len(v.Ks))])
+			}
+			return "absent" + strconv.Itoa(r.Intn(50))
+		}
+		switch op := r.Intn(10); op {
+		case 0, 1: // lookups only
+			k := anyKey()
+			x.Get(k)
+			x.GetString(k)
+			x.GetBool(k)
+			x.GetLong(k)
+			x.GetFloat(k)
+			x.ContainsKey(k)
+			x.Size()
+			x.IsEmpty()
+			en := x.Keys()
+			for en.HasMoreElements() {
+				en.NextString()
+			}
+			return "m:lookups"
+		case 2:
+			k, n := anyKey(), fresh()
+			x.Put(k, n.ToGo())
+			putMirror(v, []byte(k), n)
+			return "m:Put"
+		case 3:
+			k := anyKey()
+			txt := "ps" + strconv.Itoa(r.Intn(9))
+			x.PutString(k, txt)
+			putMirror(v, []byte(k), &V{K: "T", Bs: []byte(txt)})
+			return "m:PutString"
+		case 4:
+			k, val := anyKey(), r.Range(-5, 5)
+			x.PutLong(k, val)
+			putMirror(v, []byte(k), &V{K: "D", I: val})
+			return "m:PutLong"
+		case 5:
+			k := anyKey()
+			l := x.NewList(k)
+			l.AddLong(3)
+			putMirror(v, []byte(k), &V{K: "l", L: []*V{{K: "D", I: 3}}})
+			return "m:NewList"
+		case 6: // PutAll from another map: overlapping keys keep their place, new ones are appended
+			o := value.NewMapValue()
+			var oks [][]byte
+			var ovs []*V
+			for i := 0; i < 1+r.Intn(3); i++ {
+				k, n := anyKey(), fresh()
+				dup := false
+				for _, e := range oks {
+					dup = dup || string(e) == k
+				}
+				if dup {
+					continue
+				}
+				o.Put(k, n.ToGo())
+				oks, ovs = append(oks, []byte(k)), append(ovs, n)
+			}
+			x.PutAll(o)
+			for i := range oks {
+				putMirror(v, oks[i], ovs[i])
+			}
+			return "m:PutAll"
+		case 7:
+			x.Clear()
+			v.Ks, v.L = nil, nil
+			return "m:Clear"
+		default: // Clear, then refill under the SAME keys
+			if len(v.Ks) == 0 {
+				x.Put("first", value.NewDecimalValue(1))
+				putMirror(v, []byte("first"), &V{K: "D", I: 1})
+				return "m:Put"
+			}
+			before := string(v.Ks[0])
+			if r.Chance(40) {
+				before = string(v.Ks[r.Intn(len(v.Ks))])
+			}
+			x.Get(before) // the last key looked up before the Clear …
+			x.Clear()
+			for i, k := range v.Ks {
+				n := fresh()
+				if v.L[i].K == "T" && r.Chance(60) { // same type, other payload
+					n = &V{K: "T", Bs: append(append([]byte{}, v.L[i].Bs...), '2')}
+				}
+				if r.Chance(30) {
+					x.PutString(string(k), "refilled")
+					n = &V{K: "T", Bs: []byte("refilled")}
+				} else {
+					x.Put(string(k), n.ToGo())
+				}
+				v.L[i] = n
+				if i == 0 {
+					x.Get(string(k)) // … is the first one looked up after the refill
+					x.ContainsKey(string(k))
+				}
+			}
+			return "m:Clear+refill-same-keys"
+		}
+	case *value.IntMapValue:
+		anyKey := func() int32 {
+			if len(v.IKs) > 0 && r.Chance(80) {
+				return v.IKs[r.Intn(len(v.IKs))]
+			}
+			return int32(900000 + r.Intn(50))
+		}
+		switch op := r.Intn(8); op {
+		case 0, 1:
+			k := anyKey()
+			x.Get(k)
+			x.GetString(k)
+			x.GetBool(k)
+			x.Size()
+			en := x.Keys()
+			for en.HasMoreElements() {
+				en.NextInt()
+			}
+			return "im:lookups"
+		case 2:
+			k, n := anyKey(), fresh()
+			x.Put(k, n.ToGo())
+			putMirrorI(v, k, n)
+			return "im:Put"
+		case 3:
+			k := anyKey()
+			x.PutString(k, "ps")
+			putMirrorI(v, k, &V{K: "T", Bs: []byte("ps")})
+			return "im:PutString"
+		case 4:
+			k := anyKey()
+			x.PutLong(k, 7)
+			putMirrorI(v, k, &V{K: "D", I: 7})
+			return "im:PutLong"
+		case 5:
+			x.Clear()
+			v.IKs, v.L = nil, nil
+			return "im:Clear"
+		default:
+			if len(v.IKs) == 0 {
+				x.Put(0, value.NewDecimalValue(1))
+				putMirrorI(v, 0, &V{K: "D", I: 1})
+				return "im:Put"
+			}
+			x.Get(v.IKs[0])
+			x.Clear()
+			for i, k := range v.IKs {
+				n := fresh()
+				x.Put(k, n.ToGo())
+				v.L[i] = n
+				if i == 0 {
+					x.Get(k)
+				}
+			}
+			return "im:Clear+refill-same-keys"
+		}
+	case *value.ListValue:
+		switch op := r.Intn(7); op {
+		case 0:
+			if len(v.L) > 0 {
+				i := r.Intn(len(v.L))
+				x.Get(i)
+				x.GetString(i)
+				x.GetBool(i)
+			}
+			x.Size()
+			return "l:lookups"
+		case 1:
+			n := fresh()
+			x.Add(n.ToGo())
+			v.L = append(v.L, n)
+			return "l:Add"
+		case 2:
+			x.AddString("as")
+			v.L = append(v.L, &V{K: "T", Bs: []byte("as")})
+			return "l:AddString"
+		case 3:
+			x.AddLong(9)
+			v.L = append(v.L, &V{K: "D", I: 9})
+			return "l:AddLong"
+		case 4:
+			if len(v.L) > 0 {
+				i, n := r.Intn(len(v.L)), fresh()
+				x.Set(i, n.ToGo())
+				v.L[i] = n
+				return "l:Set"
+			}
+			x.AddLong(1)
+			v.L = append(v.L, &V{K: "D", I: 1})
+			return "l:AddLong"
+		case 5:
+			x.Clear()
+			v.L = nil
+			return "l:Clear"
+		default:
+			n := len(v.L)
+			x.Clear()
+			v.L = nil
+			for i := 0; i < n; i++ {
+				e := fresh()
+				x.Add(e.ToGo())
+				v.L = append(v.L, e)
+			}
+			return "l:Clear+refill"
+		}
+	}
+	return "none"
+}
+
 // ---------------------------------------------------------------- float helpers
 
 func IsNaN32(b uint64) bool { return b&0x7fffffff > 0x7f800000 }
